@@ -285,7 +285,8 @@ def generate(prop, tier, workdir):
         keep = {f.name} | {g.name for g in inl}
         others = [g.name for g in tree.by_file[f.file] if g.name not in keep]
         props = ["C11", "C10"]
-        if "/parser/" in f.file or f.name.startswith("bidib_state_add") or f.name in ("bidib_start_pointer", "bidib_start_serial", "bidib_state_init"):
+        if "/parser/" in f.file or f.file.endswith("/bidib_state.c") or f.file.endswith("/bidib_state_free.c") or f.name in initset or \
+                f.name in ("bidib_start_pointer", "bidib_start_serial", "bidib_state_init", "bidib_stop", "bidib_state_reset_train_params", "bidib_state_free"):
             props.append("C13")
         if prop == "C13" and "C13" not in props:
             continue
